@@ -135,6 +135,15 @@ def _setup(ml, cls, L, T, rep, rng, threshold=None):
   if rep == 'indices':
     pool, idx = pool_and_indices(rng, T)
     return make_fitted(ml, cls, L, prep_X=pool, threshold=threshold), idx
+  if rep == 'formed-F':
+    # the same numbers in Fortran (column-major) memory order: a legitimate ndarray (np.asfortranarray, a .T view, data loaded from .mat)
+    return make_fitted(ml, cls, L, threshold=threshold), np.asfortranarray(T)
+  if rep == 'formed-view':
+    # a non-contiguous view: every other row of a larger buffer, features reversed twice
+    big = np.empty((2 * T.shape[0],) + T.shape[1:], dtype=T.dtype)
+    big[::2] = T
+    big[1::2] = -7.0
+    return make_fitted(ml, cls, L, threshold=threshold), big[::2]
   return make_fitted(ml, cls, L, threshold=threshold), T
 
 
@@ -456,7 +465,11 @@ def cases(tier, seed):
       for fam in families:
         exact = exact_L and fam == 'int'
         for b in range(nb):
-          for rep in ('formed', 'indices'):
+          for rep in ('formed', 'indices', 'formed-F', 'formed-view'):
+            if rep in ('formed-F', 'formed-view') and not exact:
+              # other memory layouts make BLAS sum in another order: the last bit of a distance may then differ between two calls, so the
+              # bit-exact clauses are evaluated for them on the integer family only (all arithmetic exact, any summation order)
+              continue
             s = int(rng.randint(2 ** 31))
             T2 = batch(rng, 2, d, fam, n)
             T2b = batch(rng, 2, d, fam, n)
